@@ -18,7 +18,7 @@ def strip_generics_(p):
 
 def key_table(ctx, fn_regex, adt):
     """{(variant, qos|None): {'tag':(value,shift), 'id':(field,variant,shift)|None, 'bb':..}}"""
-    b = ctx.body(fn_regex)
+    b = ctx.flat(ctx.body(fn_regex), inline=r"::(tx_action_id|rx_action_id)$")      # helpers that compute the bit layout are inlined
     table = {}
     for i in sorted(b.reach):
         for st in b.blocks[i]["stmts"]:
@@ -41,6 +41,8 @@ def key_table(ctx, fn_regex, adt):
             extra = []
             for x, sh in sym_or_terms(e):
                 v = sym_fold(x)
+                if v == 0:
+                    continue        # a constant zero term contributes no bits (e.g. "no identifier" passed to a layout helper)
                 if v is not None:
                     names = [l for l in sym_leaves(x) if l[0] == "uneval"]
                     tag = (v, sh, names[0][2] if names else None)
@@ -115,7 +117,7 @@ def key(ctx):
     # shift in a wide type and still loses identifier bits
     W = {"u8": 8, "i8": 8, "u16": 16, "i16": 16, "u32": 32, "i32": 32, "u64": 64, "i64": 64, "usize": 64, "isize": 64, "u128": 128, "i128": 128}
     for b0, nm_ in ((tb, "tx"), (rb, "rx")):
-        bodies = [b0] + [ctx.world.body(c) for c in ctx.facts.children.get(b0.path, [])]
+        bodies = [b0] + [ctx.world.body(c) for c in ctx.facts.children.get(b0.path, []) if c not in b0.fn.get("inlined", [])]
         narrowing = []
         ncast = 0
         for b_ in bodies:
